@@ -15,7 +15,7 @@ META = {
              'failed-write cause followed by removal of the cause; signature = (object type, rejection kind, position '
              'class, name reused afterwards?); all are non-trivial'),
     'required_obs': {'quick': ['compared', 'rejected-as-intended', 'name-reused-after-rejection', 'rejection-after-registration',
-                               'rejection-before-registration'] + ['rej-' + k for k in REJECTIONS] + ['failed-write-' + k for k in FAILED_WRITES]},
+                               'rejection-before-registration', 'rejected-call-other-logical-file'] + ['rej-' + k for k in REJECTIONS] + ['failed-write-' + k for k in FAILED_WRITES]},
     'assumptions': ['rejection kinds are those the public API itself raises for',
                     'both histories run in fresh interpreters, so process-level caches (C14) cannot interfere'],
     'technique': 'runtime monitoring + fault enumeration: byte differential between a history with rejected calls / a failed write and the same history without them (fresh processes)',
@@ -33,6 +33,10 @@ def cases(tier, seed):
             for j in range(1 if tier == 'quick' else 6):
                 yield {'stratum': 'rejected-call', 'index': i, 'kind': 'reject', 'type': t, 'rejection': rk}
                 i += 1
+    # two logical files: a call rejected in one of them must not tie it to the other's sets
+    for j in range(12 if tier == 'quick' else 200):
+        yield {'stratum': 'rejected-call-other-logical-file', 'index': i, 'kind': 'reject-multilf'}
+        i += 1
     for fw in FAILED_WRITES:
         for j in range(4 if tier == 'quick' else 60):
             yield {'stratum': 'failed-write', 'index': i, 'kind': 'failed-write', 'cause': fw}
@@ -196,6 +200,41 @@ def run_case(case):
             return f'(undecodable: {e})'
         return 'same inventory; attribute or data bytes differ'
 
+    if case['kind'] == 'reject-multilf':
+        spec = metagen.meta_spec(r, avoid=avoid, n_objects=r.choice([2, 4]), lf_count=2, n_origins=1, origin_pos='first', later_p=0.0,
+                                 types=['zone', 'axis', 'equipment', 'comment', 'long_name'])
+        spec['write'] = {'output_chunk_size': 2 ** 16}
+        t = r.choice(['zone', 'equipment', 'comment', 'axis'])
+        good_lf = r.choice([0, 1])
+        sn = r.choice([None, None, 'COMMON-NAME'])
+        good = {'op': t, 'lf': good_lf, 'name': f'L{good_lf}-GOOD', 'attrs': {}}
+        bad = {'op': t, 'lf': 1 - good_lf, 'name': f'L{1 - good_lf}-BAD', 'attrs': {'no_such_keyword': 1} if r.random() < 0.3 else
+               {'zone': {'domain': 'NOT-A-DOMAIN'}, 'equipment': {'status': 7}, 'comment': {'text': 5}, 'axis': {'spacing': 'x'}}[t],
+               'expect': 'reject'}
+        if sn:
+            good['set_name'] = sn
+            bad['set_name'] = sn
+        order = [good, bad] if r.random() < 0.7 else [bad, good]
+        spec['ops'].extend(order)
+        rej_idx = spec['ops'].index(bad)
+        w1, d1, o1 = history.run_fresh(spec)
+        if not o1 or o1[rej_idx][0] == 'ok':
+            bump('not-rejected:multilf')
+            return {'evals': 0, 'violations': [], 'obs': obs, 'sigs': [], 'sample': None}
+        bump('rejected-as-intended')
+        bump('rejected-call-other-logical-file')
+        w2, d2, o2 = history.run_fresh(remove_ops(spec, [rej_idx]))
+        bump('compared')
+        label = f'{t} rejected in logical file {1 - good_lf} ({o1[rej_idx][1]}), same set name {sn!r} used by logical file {good_lf}'
+        if (w1[0] == 'ok') != (w2[0] == 'ok'):
+            vio.append({'prop': PROP, 'kind': 'rejected-call-changes-writability',
+                        'mech': 'trace:outcome:other-logical-file:' + ('rejected-call-named-the-set-first' if order[0] is bad else 'rejected-call-came-second'),
+                        'detail': f'{label}: with the rejected call {w1[:3]}, without {w2[:3]}'})
+        elif w1[0] == 'ok' and d1 != d2:
+            vio.append({'prop': PROP, 'kind': 'rejected-call-leaves-trace', 'mech': 'trace:other-logical-file',
+                        'detail': f'{label}: files differ; {describe_diff(d1, d2)}'})
+        return {'evals': 1, 'violations': vio, 'obs': obs, 'sigs': [f'multilf:{t}:{sn}:{order[0] is good}'],
+                'sample': {'type': t, 'set_name': sn, 'rejected_in_lf': 1 - good_lf, 'exception': o1[rej_idx][1:]}}
     if case['kind'] == 'reject':
         t, rk = case['type'], case['rejection']
         ops = base['ops']
